@@ -64,7 +64,13 @@ def float_calibration_map(p, vals):
 def py_config(cse=True, innovation_filtering=None, max_dt_sec=0.1):
     from formak import python
 
-    return python.Config(common_subexpression_elimination=cse, innovation_filtering=innovation_filtering, max_dt_sec=max_dt_sec)
+    return python.Config(common_subexpression_elimination=cse, innovation_filtering=innovation_filtering, max_dt_sec=max_dt_sec, extra_validation=extra_validation_on())
+
+
+def extra_validation_on():
+    import os
+
+    return os.environ.get("VERIF_EXTRA_VALIDATION") == "1"
 
 
 def seeded_points(names, seed, n=3, lo=-2.0, hi=2.0):
@@ -170,7 +176,7 @@ def build_ekf_sym(p, env, pn, sn, *, cse=True, k=None, max_dt=0.1, container="li
     sens = p.sympy_sensors(reverse=reverse_sensors)
     # the noise maps are bound by key: they are deliberately declared in the opposite order to the sensor / reading maps
     sensor_noises = {key: {r: w(sn[key][r]) for r in reversed(list(sens[key]))} for key in reversed(list(sens))}
-    cfg = python.Config(common_subexpression_elimination=cse, innovation_filtering=k, max_dt_sec=max_dt)
+    cfg = python.Config(common_subexpression_elimination=cse, innovation_filtering=k, max_dt_sec=max_dt, extra_validation=extra_validation_on())
     return python.compile_ekf(p.ui_model(container, cal_container=cal_container), process_noise, sens, sensor_noises, calmap if calmap is not None else sym_calibration_map(p, env), config=cfg)
 
 
@@ -184,7 +190,7 @@ def build_ekf_float(p, vals, *, cse=True, k=None, max_dt=0.1, pn=None, sn=None, 
     process_noise = {st[c]: float(pn[c]) for c in p.control}
     sens = p.sympy_sensors()
     sensor_noises = {key: {r: float(sn[key][r]) for r in reversed(list(sens[key]))} for key in reversed(list(sens))}
-    cfg = python.Config(common_subexpression_elimination=cse, innovation_filtering=k, max_dt_sec=max_dt)
+    cfg = python.Config(common_subexpression_elimination=cse, innovation_filtering=k, max_dt_sec=max_dt, extra_validation=extra_validation_on())
     return python.compile_ekf(p.ui_model(), process_noise, sens, sensor_noises, calmap if calmap is not None else float_calibration_map(p, vals), config=cfg)
 
 
